@@ -34,6 +34,27 @@ def small_program(rng, tier):
     return ops, sigs
 
 
+def big_program(rng, tier):
+    """a closed file with LARGE payloads (default f32 definition: 32784-byte DATA chunks; a 20000-byte user-data chunk; a big
+    SUMMARY): CRC code paths that depend on the buffer length are exercised through the file reader"""
+    ops = ["wopen", "src 1 g5.1 e - g3.2 e"]
+    sigs = {}
+    dt = "f32"
+    ops.append(proglib.sigdef_op(1, 1, dt, spd=0, sdf=0, eps=0, sumdf=0, adf=10, udf=10))      # all defaults
+    spd = 8192
+    total = 3 * spd + rng.choice([0, 5, 1000])
+    sigs[1] = dict(dt=dt, total=total, first=0, spd=spd)
+    seed = rng.randrange(1, 10**6)
+    pos = 0
+    while pos < total:
+        n = min(total - pos, spd)
+        ops.append("fsr 1 %d %d 4 %d" % (pos, n, seed + pos))
+        pos += n
+    ops.append("ud 17 1 g20000.3")
+    ops.append("ud 18 1 g13000.4")
+    return ops, sigs
+
+
 def dump_ops(sigs):
     d = ["srcs", "sigs"]
     for sid, st in sigs.items():
@@ -45,17 +66,17 @@ def dump_ops(sigs):
     return d
 
 
-def corruptions(rng, size, regions, tier):
+def corruptions(rng, size, regions, tier, big=False):
     """list of (label, [file ops])"""
     out = []
     nbits = size * 8
-    if tier == "quick":
-        bits = sorted(rng.sample(range(nbits), min(nbits, 1500)))
+    if tier == "quick" or big:
+        bits = sorted(rng.sample(range(nbits), min(nbits, (500 if tier == "quick" else 6000) if big else 1500)))
     else:
         bits = range(nbits)                     # exhaustive single-bit flips
     for b in bits:
         out.append(("flip1", ["flip %d" % b]))
-    n2 = 400 if tier == "quick" else 6000
+    n2 = (400 if tier == "quick" else 6000) // (4 if big else 1)
     for _ in range(n2):
         # 2 and 3 flips inside one protected region (a header, a payload+CRC, the file header)
         (a, l) = rng.choice(regions)
@@ -128,8 +149,9 @@ def run(ctx):
     nprog = 2 if ctx.tier == "quick" else 4
     nviol = 0
     dist = {}
-    for pi in range(nprog):
-        ops, sigs = small_program(rng, ctx.tier)
+    for pi in range(nprog + 1):
+        big = (pi == nprog)
+        ops, sigs = big_program(rng, ctx.tier) if big else small_program(rng, ctx.tier)
         d = dump_ops(sigs)
         save = os.path.join(ctx.tmp, "c04_orig_%d.jls" % pi)
         base = ";".join(ops + ["wclose", "save " + save, "ropen"] + d + ["rclose"])
@@ -140,7 +162,7 @@ def run(ctx):
         data = open(save, "rb").read()
         os.remove(save)
         regions = parse_regions(data)
-        cors = corruptions(rng, len(data), regions, ctx.tier)
+        cors = corruptions(rng, len(data), regions, ctx.tier, big=big)
         scripts = [";".join(ops + ["wclose", "dup"] + c + ["hash", "ropen"] + d + ["rclose", "hash"]) for (_, c) in cors]
         impl, _ = proglib.run_pair(ctx, scripts, "plain", model=False, timeout=30)
         prefix_checks = []
@@ -184,7 +206,7 @@ def run(ctx):
                     ctx.violation("c04_prefix_%d.txt" % nviol, "corruption (%s): %s\n%s returned %d samples that are not the written prefix\n\nscript:\n%s\n" % (label, c, op, ln, script),
                                   "corrupted file (%s %s): %s returned a wrong prefix" % (label, c, op))
     ctx.extra["distribution"] = dist
-    ctx.cov["rule"] = ("closed files (two FSR signals of different types with 2 index levels, annotations, UTC, user data) corrupted by: single-bit flips (quick: 1500 random "
+    ctx.cov["rule"] = ("closed files (two FSR signals of different types with 2 index levels, annotations, UTC, user data; plus one file with 32 KiB DATA chunks and 13/20 KB user data, sampled flips) corrupted by: single-bit flips (quick: 1500 random "
                        "positions per file; thorough: every bit), 2- and 3-bit flips and bursts <= 32 bits inside one protected region (file header, a chunk header, a "
                        "payload+pad+CRC), overwritten ranges, flips in several chunks incl. END and file header, truncation; after each, every reader call (definitions, "
                        "whole-signal read, windows, statistics, annotations, UTC, user data) must return an error, the original answer, or a correct prefix/subsequence; "
